@@ -323,7 +323,53 @@ func (g *c15Graph) reachCyclic() (map[int]bool, bool) {
 	return reach, cyc
 }
 
+// c15FileLoads: Load with a .go argument loads that file as a package of its own - also when it lies in the directory
+// of a package that one of its dependencies imports (a generator script beside a library, excluded from it by its
+// build constraint): every package runs once, dependencies first; a real cycle through the file is still an error
+func (c *Ctx) c15FileLoads() {
+	type tc struct {
+		files map[string]string
+		arg   string
+		want  string // expected output; "ERROR" = a load error
+	}
+	tools := "package tools\n\nvar Count = 3\n\nfunc init() { println(\"tools\", Count) }\n"
+	helper := "package helper\n\nimport \"tools\"\n\nvar N = tools.Count + 1\n\nfunc init() { println(\"helper\", N) }\n"
+	gen := "//go:build ignore\n\npackage main\n\nimport \"helper\"\n\nfunc init() { println(\"gen\", helper.N) }\n"
+	for _, k := range []tc{
+		{map[string]string{"tools/gen.go": gen, "tools/tools.go": tools, "helper/helper.go": helper}, "tools/gen.go", "tools 3\nhelper 4\ngen 4\n"},
+		{map[string]string{"gen.go": gen, "tools/tools.go": tools, "helper/helper.go": helper}, "gen.go", "tools 3\nhelper 4\ngen 4\n"},
+		{map[string]string{"cmd/x/gen.go": gen, "tools/tools.go": tools, "helper/helper.go": helper, "cmd/x/x.go": "package x\n\nfunc init() { println(\"BAD x\") }\n"}, "cmd/x/gen.go", "tools 3\nhelper 4\ngen 4\n"},
+		{map[string]string{"helper/gen.go": gen, "tools/tools.go": tools, "helper/helper.go": helper}, "helper/gen.go", "tools 3\nhelper 4\ngen 4\n"},
+		{map[string]string{"tools/gen.go": "package tools\n\nimport \"helper\"\n\nvar G = helper.N\n", "helper/helper.go": "package helper\n\nimport \"tools\"\n\nvar N = 1\n"}, "tools/gen.go", "ERROR"},
+		{map[string]string{"tools/gen.go": gen, "tools/tools.go": tools, "helper/helper.go": helper}, "tools", "tools 3\n"},
+	} {
+		fs := fstest.MapFS{}
+		for n, d := range k.files {
+			fs[n] = &fstest.MapFile{Data: []byte(d)}
+		}
+		var w bytes.Buffer
+		vm := goat.New(goat.WithStdout(&w))
+		var err error
+		if e := try(func() { err = vm.Load(fs, k.arg) }); e != nil {
+			err = fmt.Errorf("PANIC %v", e)
+		}
+		got := w.String()
+		if err != nil {
+			got = "ERROR"
+			if k.want != "ERROR" {
+				got += " " + err.Error()
+			}
+		}
+		c.Rep.Oracle["file-load"]++
+		c.Rep.Count("file-load")
+		if got != k.want {
+			c.Rep.Violate(Violation{Kind: "oracle", Cut: "file-load", Input: map[string]any{"files": k.files, "load": k.arg}, Impl: got, Oracle: k.want})
+		}
+	}
+}
+
 func runC15(c *Ctx) error {
+	c.c15FileLoads()
 	c.Rep.Rule = "import graphs of 1..12 packages (random fan-in/out, missing stdlib-like imports, 1-3 files per package, vendor/ and shortened-path placement, _test.go and //go:build files) incl. graphs with a back edge or self-import, and every graph on <= 3 nodes; distinct = distinct graph line; non-trivial = at least 3 packages or a cycle"
 	n := 400
 	if c.Thorough() {
